@@ -76,10 +76,21 @@ func (c *Ctx) ruleM4() {
 		if c.isTestFile(f.Pos()) || f.Parent() != nil {
 			continue
 		}
+		isDecode := func(call ssa.CallInstruction) bool {
+			return strings.HasSuffix(calleeFull(call), "go-ipld-cbor.DecodeInto")
+		}
+		// a decode here, or a call to a same-package reader that decodes and returns the manifest
 		var decodes []ssa.CallInstruction
+		targets := map[ssa.CallInstruction]ssa.Value{}
 		eachCall(f, func(call ssa.CallInstruction) {
-			if strings.HasSuffix(calleeFull(call), "go-ipld-cbor.DecodeInto") {
+			if isDecode(call) {
 				decodes = append(decodes, call)
+				targets[call] = strip(call.Common().Args[len(call.Common().Args)-1])
+				return
+			}
+			if h := call.Common().StaticCallee(); h != nil && h.Blocks != nil && h.Pkg == f.Pkg && h != f && call.Value() != nil && c.reachesStatic(h, isDecode, 0) {
+				decodes = append(decodes, call)
+				targets[call] = call.Value()
 			}
 		})
 		var paramsP *ssa.Parameter
@@ -88,16 +99,19 @@ func (c *Ctx) ruleM4() {
 				paramsP = p
 			}
 		}
-		if len(decodes) == 0 || paramsP == nil {
+		if len(decodes) == 0 {
 			continue
 		}
 		m++
 		cons := fnKey(f) + "#decoded-manifest-untouched"
+		if paramsP == nil {
+			c.ok("M4", cons, f.Pos(), "the function that decodes the manifest is not given the opener's parameters at all")
+			continue
+		}
 		dp := derived([]ssa.Value{paramsP}, flowOpts{throughCalls: true})
 		bad := false
 		for _, dc := range decodes {
-			target := dc.Common().Args[len(dc.Common().Args)-1]
-			dm := derived([]ssa.Value{strip(target)}, flowOpts{throughCalls: true})
+			dm := derived([]ssa.Value{targets[dc]}, flowOpts{throughCalls: true})
 			// after the decode: stores into the decoded object, or setter calls on it, of opener-derived values
 			reach := func(in ssa.Instruction) bool {
 				switch x := in.(type) {
@@ -128,6 +142,72 @@ func (c *Ctx) ruleM4() {
 		}
 	}
 	c.floor("M4", "manifest resolvers", m, 1)
+}
+
+// fromSplit: v (a value of function f) derives from strings.Split of a string: directly, through
+// a repo helper that returns pieces of a split, or — when v derives from a parameter of f —
+// at every static call site of f.
+func (c *Ctx) fromSplit(v ssa.Value, f *ssa.Function, depth int) bool {
+	if depth > 3 {
+		return false
+	}
+	var seeds []ssa.Value
+	eachCall(f, func(call ssa.CallInstruction) {
+		if call.Value() == nil {
+			return
+		}
+		if calleeFull(call) == "strings.Split" {
+			seeds = append(seeds, call.Value())
+			return
+		}
+		// a helper whose results derive from a split inside it
+		if h := call.Common().StaticCallee(); h != nil && h.Blocks != nil && h.Pkg != nil && inRepo(h.Pkg.Pkg) && h != f {
+			splitsInside := false
+			eachInstr(h, func(in ssa.Instruction) {
+				r, ok := in.(*ssa.Return)
+				if !ok {
+					return
+				}
+				for _, rv := range r.Results {
+					if c.fromSplit(rv, h, depth+1) {
+						splitsInside = true
+					}
+				}
+			})
+			if splitsInside {
+				seeds = append(seeds, call.Value())
+			}
+		}
+	})
+	if len(seeds) > 0 && derived(seeds, flowOpts{throughCalls: true})[v] {
+		return true
+	}
+	// through a parameter
+	for i, p := range f.Params {
+		if !derived([]ssa.Value{p}, flowOpts{throughCalls: true})[v] {
+			continue
+		}
+		sites := 0
+		okAll := true
+		for _, g := range c.RepoFns {
+			if c.isTestFile(g.Pos()) {
+				continue
+			}
+			eachCall(g, func(call ssa.CallInstruction) {
+				if call.Common().StaticCallee() != f || i >= len(call.Common().Args) {
+					return
+				}
+				sites++
+				if !c.fromSplit(call.Common().Args[i], g, depth+1) {
+					okAll = false
+				}
+			})
+		}
+		if sites > 0 && okAll {
+			return true
+		}
+	}
+	return false
 }
 
 func (c *Ctx) ruleM5() {
@@ -169,16 +249,9 @@ func (c *Ctx) ruleM5() {
 			cons := fnKey(f) + "→new(" + impl.Obj().Name() + ")"
 			// the path field must come from splitting/joining the textual form (normalised), i.e.
 			// derive from strings.Split / strings.Join of an input string
-			var splits []ssa.Value
-			eachCall(f, func(call ssa.CallInstruction) {
-				if calleeFull(call) == "strings.Split" && call.Value() != nil {
-					splits = append(splits, call.Value())
-				}
-			})
-			d := derived(splits, flowOpts{throughCalls: true})
 			okPath := false
 			for name, v := range structLitFields(al) {
-				if name == "path" && d[v] {
+				if name == "path" && c.fromSplit(v, f, 0) {
 					okPath = true
 				}
 			}
